@@ -35,6 +35,11 @@ class PeerSocket(socket.socket):
     def getpeername(self):
         return self._peer
 
+    def getsockname(self):
+        # the controller's OWN end has another address than the accessory (same family): mixing the two up must show
+        host, port = self._peer[0], self._peer[1]
+        return ("fd00::c0:ffee" if ":" in str(host) else "10.0.0.222", 40000 + (port % 1000), *self._peer[2:])
+
 
 class RecordingTransport(selector_events._SelectorSocketTransport):
     def __init__(self, loop, sock, protocol, waiter=None, extra=None, server=None):
